@@ -59,6 +59,9 @@ func NewPipe(name string) *Link { return &Link{Name: name, FailWriteAt: -1} }
 // NewStream returns a buffered byte-stream link.
 func NewStream(name string) *Link { return &Link{Name: name, stream: true, FailWriteAt: -1} }
 
+// FaultHit reports whether the read-side fault position was reached.
+func (l *Link) FaultHit() bool { return l.faultHit }
+
 // WriteBounds returns the cumulative end offsets of all writes so far.
 func (l *Link) WriteBounds() []int { return l.bounds }
 
